@@ -23,6 +23,24 @@ C={
  "C11":("exploration","generated follow-option combinations and consumer speeds (incl. lagging past the 1024-frame broadcast buffer) with bounded-response oracle for stream end",
   "Generated readers (limit vs history size, follow/heartbeat/tail/last-id/context), live appends after the read and slow consumers that fall more than 1124 frames behind; oracle: exactly the first n matching frames then the stream ends (closed within 3 s), thresholds and pulses only where asked and never stored or seen by another subscriber, lagging streams deliver a gap-free prefix and end. Sampling, not proof.",
   "interleavings are sampled at the granularity of the verif feature's sync points (delays of 0.2-20 ms dominate natural jitter) plus a hook-free stress; no exhaustive schedule enumeration; oracles are evaluated on the observable event log only; stream end is checked as bounded response (3 s against microsecond latencies)"),
+ "C14":("exploration","generated histories and bursts against a recorder handler; oracle = model of the trigger list, counter kept in the handler's environment",
+  "A recorder handler (reports each frame it is invoked for and a counter kept in $env) is registered with every resume mode over generated pre-histories (own/foreign context, look-alike topics, an earlier lifecycle of the same name with outputs, a second handler) and then hit by bursts from 1-3 concurrent writers while it sleeps; the frames it saw must equal, in order and once each, the model's trigger list; the counter must run 1,2,3,...; thresholds and pulses only as specified. Sampling, not proof.",
+  "nu scripts are rendered from templates/ASTs with generated parameters, not from the nu grammar; bounded-response waits of 8-20 s against millisecond latencies; the serve loops run in an executor process wired exactly as `xs serve` wires them"),
+ "C15":("exploration","program generation (handler script AST -> nu source) with exact expected-output oracle incl. CAS content",
+  "Handler programs rendered from an AST (0-4 explicit appends with meta/ttl/context options, failure before/between/after, return value of every type, suffix/ttl options) run on 1-3 triggers; the frames stamped with each trigger must be exactly the explicit appends in call order then the return frame, stamped over colliding user keys, in the handler's context, with byte/JSON-exact content in CAS; on failure nothing but one .unregistered and no later invocation. Sampling, not proof.",
+  "nu scripts are rendered from templates/ASTs with generated parameters, not from the nu grammar; bounded-response waits of 8-20 s against millisecond latencies; the serve loops run in an executor process wired exactly as `xs serve` wires them"),
+ "C16":("exploration","generated lifecycle event sequences with schedule delays at the handler's subscribe/announce sync points; per-instance and per-probe history invariants",
+  "Sequences of register (valid/three kinds of invalid)/re-register/unregister/failing trigger/probe over two names and two contexts, with a probe appended the moment .registered is visible and optional 5/20 ms delays at the subscribe and announce steps; per instance: at most one .registered, exactly one .unregistered (error iff it stopped on one), nothing after it; per probe: answered by exactly the active instances of its context. Sampling, not proof.",
+  "nu scripts are rendered from templates/ASTs with generated parameters, not from the nu grammar; bounded-response waits of 8-20 s against millisecond latencies; the serve loops run in an executor process wired exactly as `xs serve` wires them"),
+ "C17":("exploration","generated histories with 1-3 kill/restart points; model of the active set per (context, name); probes after live sentinels",
+  "Histories over handler/generator/command lifecycle events for two names of each kind in three contexts (same name in several contexts included) with SIGKILL+restart of the server process; after each restart, once live sentinels have come through, probes and calls in every context must be answered by exactly the model's active instances/definitions with their original ids, the restored generators must be exactly those whose latest spawn succeeded, and no historical trigger or call may gain an output. Sampling, not proof.",
+  "nu scripts are rendered from templates/ASTs with generated parameters, not from the nu grammar; bounded-response waits of 8-20 s against millisecond latencies; the serve loops run in an executor process wired exactly as `xs serve` wires them"),
+ "C18":("exploration","program generation (generator expression templates) with lifecycle-grammar oracle; duplex send sequences with foreign traffic",
+  "Generator programs producing 0-5 strings in four shapes watched over 1-2 real lifecycles, refused spawns, and duplex echo generators fed generated sequences of own, foreign-context and foreign-name sends; frames per spawn id must match (start recv{k} stop)+ with exact contents in the spawn's context, a refused spawn exactly one .spawn.error, duplex exactly one echo per own send in order. Sampling, not proof.",
+  "nu scripts are rendered from templates/ASTs with generated parameters, not from the nu grammar; bounded-response waits of 8-20 s against millisecond latencies; the serve loops run in an executor process wired exactly as `xs serve` wires them"),
+ "C19":("exploration","program generation (command definition AST) and define/redefine/call sequences with overlapping calls; per-call history oracle",
+  "Sequences of define/redefine/call over four names in two contexts, definitions rendered from an AST (0-4 values of any type, streams, lazily raised errors, explicit append, env-leak probe, sleep so that back-to-back calls overlap, suffix/ttl, module, broken definitions); per call: k results in order with exact JSON content then exactly one .complete, or exactly one .error, stamped with the latest valid definition and the call, in the caller's context. Sampling, not proof.",
+  "nu scripts are rendered from templates/ASTs with generated parameters, not from the nu grammar; bounded-response waits of 8-20 s against millisecond latencies; the serve loops run in an executor process wired exactly as `xs serve` wires them"),
  "C04":("fault_enumeration","crash-point injection (LD_PRELOAD syscall-level kill and power-loss images) over generated workloads, reference model + cross-path oracle after reopen",
   "Generated workloads run in a process with an LD_PRELOAD shim that numbers every file-system mutation under the store directory and SIGKILLs the process at a chosen one, before or after the call, as a process-kill image or as a power-loss image (journal bytes since the last fsync zeroed except a torn prefix). quick samples one event per workload (640 images), thorough additionally enumerates every event x {before, after} for 160 workloads. The store is reopened in a fresh process and checked: reopens; acknowledged operations reflected; in-flight operation all-or-nothing; by-id/all-stream/context-stream/head agreement; nothing unsent; content of visible frames present and hashing correctly (kill images); still writable. Enumeration of the interposed events, not of all possible disk states.",
   "granularity = libc call; renames done by raw syscalls (tempfile/rustix inside the CAS library) are not interposed; power loss is modelled for fjall journal files only; event numbers shift between runs (background threads), the oracle depends only on acknowledgements"),
@@ -55,6 +73,9 @@ for pid,(lvl,tech,text,note) in C.items():
       "level_note":note,
       "technique":tech,
     })
+order=sorted(C.keys())
+C={k:C[k] for k in order}
+checks.sort(key=lambda c:c["property_id"])
 na=[{"property_id":p["id"],"reason":"check not built yet in this round (planned, see DESIGN.md section 7)"} for p in props if p["id"] not in C]
 hook=subprocess.run(["git","-C","/repo","log","--format=%h","--grep=^verif hooks"],capture_output=True,text=True).stdout.split()
 m={
